@@ -979,7 +979,7 @@ pub fn matrix_behaviour(r: &mut Rng, t: &mut Trace) {
         let p0 = w.pairs[0].addr.clone();
         let lp0 = w.pairs[0].lp.clone();
         let (a0, a1) = pair_infos(&w, 0);
-        // (the last two callers are senders whose address the Api refuses to canonicalise - MockApi: under 3 or over 90
+        // (the last two callers are senders whose address the Api refuses to canonicalise - MockApi: under 3 or over 54
         //  characters; they hold nothing and need nothing: an owner check that fails OPEN on such a sender admits them)
         let roles: Vec<String> = vec!["owner".into(), "newowner".into(), "mallory".into(), w.factory.clone(), w.router.clone(), p0.clone(), lp0.clone(), w.tokens[0].clone(), w.tokens[1].clone(), w.pairs[1].addr.clone(),
                                       "zz".into(), "q".repeat(120)];
